@@ -79,10 +79,25 @@ type fileCtx struct {
 	needImp  map[string]string // path -> name
 }
 
+// enclosingFunc names the top-level function a position lies in.
+func (c *fileCtx) enclosingFunc(p token.Pos) string {
+	for _, d := range c.file.Decls {
+		if fd, ok := d.(*ast.FuncDecl); ok && fd.Pos() <= p && p <= fd.End() {
+			return fd.Name.Name
+		}
+	}
+	return ""
+}
+
 func (c *fileCtx) site(n ast.Node, what string) ast.Expr {
 	pos := c.pkg.Fset.Position(n.Pos())
 	id := c.base + len(c.sites)
-	c.sites = append(c.sites, fmt.Sprintf("%s:%d:%s", c.rel, pos.Line, what))
+	name := fmt.Sprintf("%s:%d:%s", c.rel, pos.Line, what)
+	if fn := c.enclosingFunc(n.Pos()); fn != "" && n.Pos().IsValid() {
+		name += "@" + fn
+	}
+	c.sites = append(c.sites, name)
+	_ = pos
 	return &ast.BasicLit{Kind: token.INT, Value: strconv.Itoa(id)}
 }
 
